@@ -4,6 +4,7 @@ from . import hir
 from .core import Out
 from .rules_tables import last, match_tables, find_fn, tag_parsers
 from .rules_struct import place, calls_in
+from . import roles
 
 GT = "spl_frontend::table::GlobalTable"
 LT = "spl_frontend::table::LookupTable"
@@ -553,7 +554,8 @@ def rule_semtok_pairing(prog):
                     if hir.adt_path(c, bd["bt"]) == "spl_frontend::tokens::Token":
                         tok = "%s#%s" % (bd["name"], bd["id"])
             r = hir.strip(n["r"])
-            pos_ok = r.get("k") == "Call" and (hir.callee_display(r) or "").endswith("as_position") and \
+            asp = roles.conv(prog).get("as_position")
+            pos_ok = r.get("k") == "Call" and asp is not None and (hir.callee(r) or "") == asp["p"] and \
                 (place(r["args"][0]) or "") == "%s.range.start" % tok
             ok = g_ok and pos_ok
         out.add(b["d"], "previous position advances exactly when a semantic token is emitted, to that token's start", ok,
@@ -629,7 +631,8 @@ def rule_fmt_pure(prog):
                     any((s.get("adt") or "").endswith("TextEdit") for s in hir.nodes(f["body"], "Struct"))
                 ok = (then_none and else_edit) or early
     out.add("formatting::format", "returns null exactly when the formatted text equals the document", ok, c.loc(f["sp"]), "")
-    rng = [n for n in hir.nodes(f["body"], "Call") if (hir.callee_display(n) or "").endswith("as_pos_range")]
+    apr = roles.conv(prog).get("as_pos_range")
+    rng = [n for n in hir.nodes(f["body"], "Call") if apr is not None and (hir.callee(n) or "") == apr["p"]]
     ok = False
     for n in rng:
         r = hir.strip_ref(n["args"][0])
